@@ -597,7 +597,7 @@ def gen_histories(rng, tier):
     return out
 
 
-register("C09", lean_modules=["FsProofs.Properties.C09"], theorems=["Fs.C09.pfInit_perm", "Fs.C09.pflood_perm", "Fs.C09.pfInit_fields", "Fs.UB.seedQueue_perm"],
+register("C09", lean_modules=["FsProofs.Properties.C09", "FsProofs.Properties.C09Pure"], theorems=["Fs.C09.callUpdate_history_free", "Fs.C09.update_eq_fresh", "Fs.C09.runOps_history_free", "Fs.C09.mstHook_pure", "Fs.C09.pfInit_perm", "Fs.C09.pflood_perm", "Fs.C09.pfInit_fields", "Fs.UB.seedQueue_perm"],
          gen=gen_histories, oracles=[oracle.c09], sections=None, nontrivial=raised_or_rerouted, tags=tags_flow,
          rule="one graph object driven through a random history (updates with other fields, masks, base-level sets of different sizes - which rehash the hash set -, exponent changes, accumulate, basins), then final inputs applied twice (repeat) and to a fresh graph on the same grid object; all observable tables, elevation, accumulation and basins compared bit for bit; non-trivial = resolver raised some node",
          trusted_base=FLOW_TB + ["the hash-set iteration order of base levels is handed to the model as an input and is universally quantified in the seed-order theorem"])
@@ -646,7 +646,7 @@ _lvl("C08", "proof",
      "The LOGIC part of memory safety is proved on the executed model, the rest is sanitizer execution. Theorems: skipFwd_log_in_range (every status read of the filtered iterator's skip loop is at an index < size when the bounds test precedes the filter; conjunct order regenerated from iterators.hpp each run); multi_fits / single_fits (TablesFit: for every topology whose rows are <= n_neighbors_max wide, in range and symmetric with multiplicity - proved for rasters in C07 - every receiver row of the multi router has 1..nmax entries and every donor row <= nmax; single router: exactly 1 receiver and <= nmax+1 donors (the +1 of the donors table is needed: a pit is its own donor); all indices < n; dfs and bfs have exactly n entries < n, <= n non-empty levels, level offsets are nmax-many+1, start at 0, end at n); accumulate_no_write_outside / basins_no_write_outside / *_frame (the sweeps neither read nor write entries >= n). Everything else (use-after-free, lifetime, signed overflow, scratch vectors of the basin graph, eroders) is the sanitizer build: every scenario family of the other properties runs under ASan+UBSan+_GLIBCXX_ASSERTIONS with asserts enabled; each distinct report is a violation. Partial by nature: Lean proves index logic of the model, not absence of UB in C++. raster_C08_fits: TablesFit for both routers on every raster (the TopoOk hypotheses discharged from C07).",
      "Lean 4 index-range / row-width theorems on the executed model + translator (conjunct order) + ASan/UBSan/libstdc++-assertion execution of all scenario families")
 _lvl("C09", "proof",
-     "The model's update_routes is a pure function of (operators with their parameters, topology, mask, base levels, elevation) by construction; the only input through which the history of the C++ object can reach it is the iteration order of the hash set of base levels, handed over by the harness as a list. Theorems on the executed definitions: pfInit_perm / pflood_perm - for any two base-level lists that are permutations of each other the flood starts from the same state (queue order included, thanks to the (elevation, index) ordering of the queue) and returns the same elevations, for every grid and elevation field over a linear order; all other operators use the base levels only through membership. Correspondence: random histories on one object vs a fresh object vs the model, every observable bit for bit, input array never written.",
+     "callUpdate_history_free / update_eq_fresh / runOps_history_free (C09Pure.lean): the model's update_routes threads the previous call's graph tables and snapshots into the next call (as the C++ object does), and for every operator sequence the constructor accepts the new graph, elevation, elevation snapshots, every graph snapshot the sequence saves and every printed line are PROVED independent of what the previous calls left - whatever history, same result as on a fresh graph (an unaccepted sequence such as a lone sink resolver would return the left-over graph: example in the file). Beyond that the model's update_routes is a function of (operators with their parameters, topology, mask, base levels, elevation); the only input through which the history of the C++ object can reach it is the iteration order of the hash set of base levels, handed over by the harness as a list. Theorems on the executed definitions: pfInit_perm / pflood_perm - for any two base-level lists that are permutations of each other the flood starts from the same state (queue order included, thanks to the (elevation, index) ordering of the queue) and returns the same elevations, for every grid and elevation field over a linear order; all other operators use the base levels only through membership. Correspondence: random histories on one object vs a fresh object vs the model, every observable bit for bit, input array never written.",
      "Lean 4 permutation-invariance proof on the executed flood initialisation + history-vs-fresh differential testing against the pure model")
 _lvl("C17", "proof",
      "Theorems on the executed grid model (constants regenerated from the source): prio_order (fixed value > fixed gradient > looped > core, decide over the regenerated precedences), paint_spec (for every raster with >= 2 nodes per axis: core strictly inside, the border's status on each non-corner border node, at each corner the one of the two meeting statuses with the larger precedence), rasterStatus_ok_iff / _error_iff / _error_kind / rasterStatus_ok / rasterStatus_ok_distinct (construction succeeds iff looped borders are symmetric and no override is out of range, looped, or on a looped node; which error kind the first offending entry yields; otherwise the array is the painted array with the overrides applied and looped appears exactly on the looped borders), the same for the profile grid (profileStatus_*), sortKeys_perm / sorted (std::map order), iterFwd_eq / iterRev_eq (iteration filtered by any predicate yields exactly (range size).filter p, resp. its reverse, for every size and predicate; built on skipFwd_stop). Default base levels = fixed-value nodes is a definition of the driver. Compared exhaustively over all 4^4 / 4^2 border mixes on small shapes, plus malformed override maps with error kinds, iteration in both directions for every filter.",
@@ -865,8 +865,8 @@ def bg_nontrivial(si):
     return any(c.cmd == "bgraph" and len(c.O.get("bg_tree", [])) >= 1 for c in si.calls)
 
 
-register("C15", lean_modules=["FsProofs.Properties.C15", "FsProofs.Properties.C15Min", "FsProofs.Properties.C15Cert", "FsProofs.Properties.C15Connect", "FsProofs.Properties.C15Bottleneck", "FsProofs.Properties.C01MstOrientComplete"],
-         theorems=["Fs.C15.kruskal_exec_bottleneck", "Fs.C15.kruskal_minimax_iff", "Fs.C15Connect.c15_edge_sound", "Fs.C15Connect.c15_edge_unique", "Fs.C15Connect.c15_lowest_pass", "Fs.C15Connect.c15_lowest_pass_exists", "Fs.C15Connect.c15_virtual",
+register("C15", lean_modules=["FsProofs.Properties.C15UnionFind", "FsProofs.Properties.C15", "FsProofs.Properties.C15Min", "FsProofs.Properties.C15Cert", "FsProofs.Properties.C15Connect", "FsProofs.Properties.C15Bottleneck", "FsProofs.Properties.C01MstOrientComplete"],
+         theorems=["Fs.C15.kruskalUF_eq", "Fs.C15.find_spec", "Fs.C15.find_compresses", "Fs.C15.merge_spec", "Fs.C15.kruskalUF_min_weight", "Fs.C15.kruskal_exec_bottleneck", "Fs.C15.kruskal_minimax_iff", "Fs.C15Connect.c15_edge_sound", "Fs.C15Connect.c15_edge_unique", "Fs.C15Connect.c15_lowest_pass", "Fs.C15Connect.c15_lowest_pass_exists", "Fs.C15Connect.c15_virtual",
                    "Fs.C01Mst.orient_spec", "Fs.C01Mst.orient_reached_iff", "Fs.C15.certImpl_sound", "Fs.C15.certOk_sound", "Fs.C15.certOk_kruskal", "Fs.C15.kruskal_exec_min_weight", "Fs.C15.kruskal_exec_is_spanning_forest", "Fs.C15.kruskal_min_weight", "Fs.C15.kruskal_minimum_spanning_forest", "Fs.C15.validPerm_sorted", "Fs.C15.exchange",
                    "Fs.C15.kruskal_sim", "Fs.C15.kruskal_spanning", "Fs.C15.kruskal_forest", "Fs.Kruskal.kruskal_agree", "Fs.Kruskal.kruskal_forest"],
          gen=gen_bgraph, oracles=[oracle.c15], nontrivial=bg_nontrivial, tags=bg_tags,
@@ -877,7 +877,7 @@ register("C15", lean_modules=["FsProofs.Properties.C15", "FsProofs.Properties.C1
          trusted_base=FLOW_TB + ["std::sort tie order of Kruskal is recomputed by the harness with the same comparator and handed to the model, which validates it is a weight-sorted permutation",
                                  "m_max_low_degree regenerated from basin_graph.hpp"])
 _lvl("C15", "proof",
-     "Theorems about the executed basin-graph model: connect_basins (c15_edge_sound, c15_edge_unique, c15_lowest_pass_exists, c15_lowest_pass, c15_virtual: every real edge joins a node of an inner basin to a neighbouring node of another basin with pass height max of the two elevations; one edge per basin pair; no joining pair is strictly lower than the stored pass; outer basins are linked to the first outer basin = root by virtual edges - for any topology, mask, base levels, under the block structure of the bottom-up order proved in C19); Kruskal: kruskal_sim (the executed array Kruskal accepts exactly what the abstract class-map Kruskal accepts), kruskal_exec_is_spanning_forest, kruskal_exec_min_weight (exchange argument: for a weight-sorted order the tree has minimum total pass elevation among ALL spanning forests of the edge set; validPerm_sorted ties the order the harness hands over), so #tree = #basins - #components; Boruvka (imperative, not reasoned about directly) and the implementation's own output are covered by a CERTIFICATE CHECKER evaluated by the model driver on every basin-graph scenario - certOk on the model's raw tree and certImpl on the edge array and tree REPORTED BY THE C++ - with soundness theorems certOk_sound / certImpl_sound (accepted => spanning forest of minimum total weight among all spanning forests; equal weight multiset as a Kruskal tree) and certOk_kruskal (Kruskal's own tree is always accepted). kruskal_exec_bottleneck / kruskal_minimax_iff (C15Bottleneck.lean): two basins joined by passes of height <= b in the basin graph are joined by TREE passes of height <= b (the tree is a minimax / bottleneck tree - what makes the filled level the spill level). Orientation: orient_spec (the executed depth-first orientation returns, for a forest, an arborescence from the root: every returned edge is the original or its flip, each reached basin is the head of exactly one edge, depth(head) = depth(tail) + 1, the root is never a head) and orient_reached_iff (reached = connected to the root in the tree).",
+     "Theorems about the executed basin-graph model: UNION-FIND (FsModel/UnionFind.lean transcribes utils/union_find.hpp: two-pass find with path compression, union by rank; the model driver builds the Kruskal tree it prints with it): find_spec / find_compresses / merge_spec (find returns the root, compresses exactly the path, changes no class; merge unites exactly the two classes and keeps the rank invariant) and kruskalUF_eq (Kruskal over this union-find accepts exactly the edges of the class-map Kruskal, so every theorem below transfers); connect_basins (c15_edge_sound, c15_edge_unique, c15_lowest_pass_exists, c15_lowest_pass, c15_virtual: every real edge joins a node of an inner basin to a neighbouring node of another basin with pass height max of the two elevations; one edge per basin pair; no joining pair is strictly lower than the stored pass; outer basins are linked to the first outer basin = root by virtual edges - for any topology, mask, base levels, under the block structure of the bottom-up order proved in C19); Kruskal: kruskal_sim (the executed array Kruskal accepts exactly what the abstract class-map Kruskal accepts), kruskal_exec_is_spanning_forest, kruskal_exec_min_weight (exchange argument: for a weight-sorted order the tree has minimum total pass elevation among ALL spanning forests of the edge set; validPerm_sorted ties the order the harness hands over), so #tree = #basins - #components; Boruvka (imperative, not reasoned about directly) and the implementation's own output are covered by a CERTIFICATE CHECKER evaluated by the model driver on every basin-graph scenario - certOk on the model's raw tree and certImpl on the edge array and tree REPORTED BY THE C++ - with soundness theorems certOk_sound / certImpl_sound (accepted => spanning forest of minimum total weight among all spanning forests; equal weight multiset as a Kruskal tree) and certOk_kruskal (Kruskal's own tree is always accepted). kruskal_exec_bottleneck / kruskal_minimax_iff (C15Bottleneck.lean): two basins joined by passes of height <= b in the basin graph are joined by TREE passes of height <= b (the tree is a minimax / bottleneck tree - what makes the filled level the spill level). Orientation: orient_spec (the executed depth-first orientation returns, for a forest, an arborescence from the root: every returned edge is the original or its flip, each reached basin is the head of exactly one edge, depth(head) = depth(tail) + 1, the root is never a head) and orient_reached_iff (reached = connected to the root in the tree).",
      "Lean 4 fold-invariant proof (connect_basins) + simulation + exchange-argument minimality proof + proved-sound certificate checker run on model and implementation outputs + exact correspondence of connect/Kruskal/Boruvka/orient + independent MST-weight oracle")
 
 
